@@ -59,7 +59,7 @@ Qed.
 
 Lemma withdraw_spec c s sender to d amt s' r :
   withdraw c s sender to d amt = Some (s', r) →
-  ∃ a base, resolve c sender = Some a ∧ to ≠ [] ∧ valid_denom d = true ∧ 0 < amt ∧
+  ∃ a base, resolve c sender = Some a ∧ to ≠ [] ∧ valid_denom d = true ∧ 0 < amt < 18446744073709551616 ∧
     pairs s !! d = Some base ∧ amt ≤ getb (bk s) a d ∧ r = RSeq (next_l2 s) ∧
     next_l2 s' = (next_l2 s + 1)%N ∧
     wlog s' = {| w_seq := next_l2 s; w_from := sender; w_to := to; w_denom := d; w_base := base;
@@ -69,7 +69,8 @@ Lemma withdraw_spec c s sender to d amt s' r :
     next_l1 s' = next_l1 s ∧ pairs s' = pairs s ∧ prm s' = prm s ∧ info s' = info s ∧
     vs s' = vs s ∧ seqs s' = seqs s ∧ dlog s' = dlog s.
 Proof.
-  intros H. apply withdraw_Some in H as (a & b1 & b2 & base & Ha & Hto & Hd & Hamt & Hb1 & Hb2 & Hp & -> & ->).
+  intros H. pose proof (withdraw_uint64 _ _ _ _ _ _ _ _ H) as Hu.
+  apply withdraw_Some in H as (a & b1 & b2 & base & Ha & Hto & Hd & Hamt & Hb1 & Hb2 & Hp & -> & ->).
   apply bank_send_Some in Hb1 as (Hle & H1b & H1s). apply bank_burn_Some in Hb2 as (_ & H2b & H2s).
   exists a, base. cbn. repeat (split; [done|]). split.
   - intros a' d'. rewrite H2b, H1b. lia.
@@ -222,7 +223,8 @@ Section history.
   (* -- single withdrawal -- *)
   Lemma c09_withdraw_exact s sender to d amt s' q :
     step c s (MWithdraw sender to d amt) = (s', Ok q) →
-    ∃ a base, resolve c sender = Some a ∧ pairs s !! d = Some base ∧ 0 < amt ∧ amt ≤ getb (bk s) a d ∧
+    ∃ a base, resolve c sender = Some a ∧ pairs s !! d = Some base ∧ 0 < amt < 18446744073709551616 ∧
+      amt ≤ getb (bk s) a d ∧
       q = RSeq (next_l2 s) ∧ next_l2 s' = (next_l2 s + 1)%N ∧
       wlog s' = {| w_seq := next_l2 s; w_from := sender; w_to := to; w_denom := d; w_base := base;
                    w_amt := amt; w_refund := false |} :: wlog s ∧
@@ -245,12 +247,13 @@ Section history.
 
   (* what makes a withdrawal succeed: exactly these guards *)
   Lemma c09_withdraw_accepts s sender to d amt a base :
-    resolve c sender = Some a → to ≠ [] → valid_denom d = true → 0 < amt →
+    resolve c sender = Some a → to ≠ [] → valid_denom d = true → 0 < amt < 18446744073709551616 →
     amt ≤ getb (bk s) a d → 0 ≤ getb (bk s) (modacc c) d → pairs s !! d = Some base →
     ∃ s', step c s (MWithdraw sender to d amt) = (s', Ok (RSeq (next_l2 s))).
   Proof.
     intros Ha Hto Hd Hamt Hle Hmod Hp. unfold step. cbn [handle]. unfold withdraw. rewrite Ha. cbn.
-    rewrite bool_decide_false by done. rewrite Hd. apply Z.ltb_lt in Hamt as Hamt'. rewrite Hamt'. cbn.
+    rewrite bool_decide_false by done. rewrite Hd. destruct Hamt as [Hamt Hu].
+    apply Z.ltb_lt in Hamt as Hamt'. apply Z.ltb_lt in Hu as Hu'. rewrite Hamt', Hu'. cbn.
     destruct (bank_send_ok (bk s) a (modacc c) d amt Hle) as (b1 & Hb1). rewrite Hb1. cbn.
     apply bank_send_Some in Hb1 as (_ & H1b & _).
     assert (Hm : amt ≤ getb b1 (modacc c) d).
